@@ -37,8 +37,12 @@ func c07hpStubDecodeString(enc *base64.Encoding, s string) ([]byte, error) {
 	}
 	return []byte(c07hp.decoded), nil
 }
-func c07hpStubHTTPHandler(hp *HTTPProxy, rw http.ResponseWriter, req *http.Request)    { c07hp.forwarded++ }
-func c07hpStubConnectHandler(hp *HTTPProxy, rw http.ResponseWriter, req *http.Request) { c07hp.forwarded++ }
+func c07hpStubHTTPHandler(hp *HTTPProxy, rw http.ResponseWriter, req *http.Request) {
+	c07hp.forwarded++
+}
+func c07hpStubConnectHandler(hp *HTTPProxy, rw http.ResponseWriter, req *http.Request) {
+	c07hp.forwarded++
+}
 func c07hpStubDial(network, address string) (net.Conn, error) {
 	c07hp.dialed++
 	return nil, errors.New("no backend in harness")
